@@ -31,6 +31,9 @@ var c14Templates = []string{
 	/* 14 */ "local v\x01 = 0\nrepeat\n local v\x02 = 1\nuntil \x0f\n\x0e\n",
 	/* 15 */ "repeat local v\x01 = 1 until \x0f\n",
 	/* 16 */ "local v\x01 = 0\nrepeat\n local v\x02 = 1\nuntil (function(v\x03) return \x0f end)()\n",
+	// callbacks in a call chain written over several lines (one in the prefix call, one in the arguments)
+	/* 17 */ "local v\x01 = 0\nlocal r = o:map(function(v\x02)\n local v\x03 = 1\n \x0e\nend):filter(function(v\x04)\n \x0e\nend)\n\x0e\n",
+	/* 18 */ "return mk(function(v\x01, v\x02)\n if k then\n  local v\x03 = 1\n  \x0e\n end\nend)(function(v\x04)\n \x0e\nend)\n",
 }
 
 // a second file of the workspace: plain and _G-qualified globals (all must be offered) and a local (never)
